@@ -64,7 +64,8 @@ def _targets():
         "parse_age": lambda I, v: I.call(http.parse_age, (v,)) is None,
         "parse_cookie[sansio]": lambda I, v: _items(I, I.call(shttp.parse_cookie, (v,))),
         "parse_cookie[environ]": lambda I, v: _items(I, I.call(http.parse_cookie, ({"HTTP_COOKIE": v},))),
-        "Authorization.from_header": lambda I, v: _auth(I.call(Authorization.from_header, (v,))),
+        # the outcome depends on the base64 stub: only "returned" is comparable
+        "Authorization.from_header": lambda I, v: (I.call(Authorization.from_header, (v,)), "returned")[1],
         "WWWAuthenticate.from_header": lambda I, v: _auth(I.call(WWWAuthenticate.from_header, (v,))),
         "get_content_length": lambda I, v: I.call(sutils.get_content_length, (v, None)),
         "get_host": lambda I, v: I.call(sutils.get_host, ("http", v, ("srv", 80))),
@@ -102,17 +103,20 @@ def _args(I, v):
     return "parsed"  # the values come from the parse_qsl stub and are not comparable
 
 
-def body_parser(I, X, target="parse_list_header", n=3):
+def body_parser(I, X, target="parse_list_header", n=3, skel="{}"):
     from werkzeug.exceptions import HTTPException
+    from symex.poly import pconcat
 
     T = _targets()
-    text = X.str("text", n, minlen=n, maxcp=0xFF)
-    X.assume(pall_in(text, ALPHABET))
+    core = X.str("text", n, minlen=n, maxcp=0xFF)
+    X.assume(pall_in(core, ALPHABET))
+    pre, _, post = skel.partition("{}")
+    text = pconcat(pre, core, post) if (pre or post) else core
     if target in ("host_is_trusted", "get_host"):
         # IDNA encoding of non-ASCII host names is C-level codec code (outside the claim)
-        X.assume(pall_in(text, [(0x20, 0x7E)]))
+        X.assume(pall_in(core, [(0x20, 0x7E)]))
     for kid, pred in KNOWN_PREDICATES.get(target, []):
-        X.known(kid, pred(text))
+        X.known(kid, pred(core))
     try:
         r = T[target](I, text)
         return True, {"result": r}
@@ -223,4 +227,30 @@ def obligations(tier, seed):
             out.append({"name": f"robust[{name},n={n}]", "body": "body_parser", "params": {"target": name, "n": n},
                         "opts": {"budget_s": 300 if quick else 1800, "ctx": {"max_cp": 0xFF}},
                         "witness": n == 2})
+    # structured inputs: a concrete skeleton around the symbolic core reaches parser states
+    # (inside quotes, after a parameter name, inside a range spec) that short free text cannot
+    SK = {
+        "parse_cookie[sansio]": ['k="{}"', "k={}; j=1"], "parse_cookie[environ]": ['k="{}"'],
+        "parse_options_header": ["a; k={}", 'a;k="{}"', "a; k*={}", "a; k*0={}"], "parse_dict_header": ['k="{}", j', "k*={}"],
+        "parse_list_header": ['"{}", j'], "parse_set_header": ['"{}", J'],
+        "parse_accept_header[Accept]": ["a;q={}", "a; k={}"], "parse_accept_header[MIMEAccept]": ["a/b;q={}", "a/{}"],
+        "parse_accept_header[LanguageAccept]": ["en;q={}", "en-{}"], "parse_accept_header[CharsetAccept]": ["utf-8;q={}"],
+        "parse_cache_control_header": ["max-age={}", 'private="{}"'], "parse_csp_header": ["default-src {}"],
+        "parse_etags": ['W/"{}"', '"{}", "b"'], "parse_if_range_header": ['W/"{}"'],
+        "parse_range_header": ["bytes={}", "bytes=0-1,{}"], "parse_content_range_header": ["bytes {}", "bytes 0-{}"],
+        "Authorization.from_header": ["Basic {}", "Digest k={}", "Bearer {}"], "WWWAuthenticate.from_header": ["Digest k={}", 'Digest k="{}"'],
+        "get_host": ["{}:80", "[{}]"], "host_is_trusted": ["{}.example.org", "{}:80"],
+        "Request.args": ["a={}&b=1"],
+    }
+    for name, skels in SK.items():
+        for skel in skels:
+            top = 3 if quick else 4
+            if name == "parse_cookie[sansio]" and skel.startswith('k="'):
+                top = 4 if quick else 5
+            if name in heavy and not name.startswith("parse_cookie"):
+                top = 2 if quick else 3
+            for n in range(1, top + 1):
+                out.append({"name": f"robust-skel[{name},{skel},n={n}]", "body": "body_parser",
+                            "params": {"target": name, "n": n, "skel": skel},
+                            "opts": {"budget_s": 300 if quick else 1800, "ctx": {"max_cp": 0xFF}}})
     return out
